@@ -602,6 +602,23 @@ def new_dict(R, dt):
     return r
 
 
+@builtin("itertools.product")
+def m_product(R, args, kw, node):
+    """product(A, B) where B has exactly one element on this path: pairs (A[i], B[0]) in the order of A"""
+    if len(args) != 2 or kw:
+        raise Unsupported("itertools.product form")
+    ia = R.iter_of(args[0], node)
+    sb = R.as_seq(args[1]) if args[1].t.kind in ("list", "seq") else None
+    if sb is None or ia.concrete is not None:
+        raise Unsupported("itertools.product operands")
+    if not R.feasible(z3.Length(sb.z) == 1) or R.feasible(z3.Length(sb.z) != 1):
+        raise Unsupported("itertools.product with a second operand that is not a singleton on this path")
+    from .interp import nth as _nth
+
+    b0 = V(sb.t.elem, _nth(sb.z, z3.IntVal(0)))
+    return const(Iter(ia.n, lambda i, ia=ia, b0=b0: const((ia.at(i), b0)), src_locs=list(getattr(ia, "src_locs", []) or []), seq=getattr(ia, "seq", None)))
+
+
 @builtin("print")
 def m_print(R, args, kw, node):
     # diagnostics: assumption A7 (no contract-visible effect)
